@@ -6,12 +6,14 @@ from vlib.par import pmap, with_timeout, JobTimeout
 
 PROPERTY = 'C18'
 LEVEL = 'other'
-TARGETS = [('mapping_items', 'graphtage.MappingNode.items'), ('mapping_items', 'graphtage.FixedKeyDictNode.items')]
-TRUSTED = ['MappingNode.__iter__ against a ghost item list', 'to_obj() of a mapping is {k.to_obj(): v.to_obj() for k, v in items()} '
+TARGETS = [('mapping_items', 'graphtage.MappingNode.items'), ('mapping_items', 'graphtage.FixedKeyDictNode.items'),
+           ('to_obj', 'graphtage.ListNode.to_obj'), ('to_obj', 'plist.PLISTNode.to_obj')]
+TRUSTED = ['MappingNode.__iter__ against a ghost item list', 'to_obj() of a child is a function of the child (induction hypothesis)', 'to_obj() of a mapping is {k.to_obj(): v.to_obj() for k, v in items()} '
            '(dict comprehension, not under contract)']
 ASSUMPTIONS = []
 EXPLANATION = (
-    "Deductive: MappingNode.items() yields (pair.key, pair.value) for every pair in iteration order, proved for the "
+    "Deductive: ListNode.to_obj() is the list of its children's to_obj() values, same length and order (the real comprehension, "
+    "children's values by induction hypothesis), PLISTNode.to_obj() is its root's.  MappingNode.items() yields (pair.key, pair.value) for every pair in iteration order, proved for the "
     "base class and for the override FixedKeyDictNode.items - the step on which to_obj() of every mapping rests. "
     "json.build_tree / Builder.build_tree dispatch on the dynamic type of arbitrary Python objects and walk object graphs "
     "with identity-based ancestor checks; that is outside the VC generator (no dynamically typed values, no object "
@@ -385,7 +387,7 @@ def _isolation_job(job):
 
 def witnesses(func_result, ob, repo_root, tier):
     for opt in ({'allow_key_edits': False}, {}):
-        for obj in ({"a": 1}, {"a": [1, {"b": 2}]}):
+        for obj in ({"a": 1}, {"a": [1, {"b": 2}]}, [1, 2, 3], [[1, "a"], [], [None, [2.5, True]]], [7]):
             f = [x for x in _acyclic_inner((obj, opt)) if 'roundtrip' in x['class']]
             if f:
                 return f[:1]
